@@ -8,6 +8,7 @@ import (
 	"hash/fnv"
 	"os"
 	"regexp"
+	"runtime/debug"
 	"sort"
 	"strconv"
 	"strings"
@@ -146,7 +147,7 @@ func Exec(t *testing.T, w World, prop, tier string, tape *simsync.Tape, trace bo
 					if he, ok := r.(simsync.HarnessError); ok {
 						res.Harness = he.Msg
 					} else {
-						res.Harness = fmt.Sprintf("panic on the controller goroutine: %v", r)
+						res.Harness = fmt.Sprintf("panic on the controller goroutine: %v\n%s", r, debug.Stack())
 					}
 				}
 				func() {
